@@ -193,9 +193,20 @@ func Damages07(log, idx []byte, ver int, l Layout, recs []refcodec.Rec) []Damage
 		ds = append(ds, Damage{Desc: fmt.Sprintf("index truncated to %d", L), Index: cloneb(idx[:L])})
 	}
 	for p := 0; p < len(idx); p++ {
-		d := cloneb(idx)
-		d[p] = ^d[p]
-		ds = append(ds, Damage{Desc: fmt.Sprintf("index byte %d inverted", p), Index: d})
+		tried := map[byte]bool{idx[p]: true}
+		for _, nb := range []byte{^idx[p], idx[p] ^ 1, 0, 1, 0xFF} {
+			if tried[nb] {
+				continue
+			}
+			tried[nb] = true
+			d := cloneb(idx)
+			d[p] = nb
+			desc := fmt.Sprintf("index byte %d %#x->%#x", p, idx[p], nb)
+			if nb == ^idx[p] {
+				desc = fmt.Sprintf("index byte %d inverted", p)
+			}
+			ds = append(ds, Damage{Desc: desc, Index: d})
+		}
 	}
 	isz := refcodec.ItemSize(l.Times, l.Keys)
 	last := recs[len(recs)-1]
